@@ -76,9 +76,9 @@ def lean_sources() -> list[str]:
     return sorted(res)
 
 
-def lean_closure(prop_id: str) -> list[str]:
+def lean_closure(prop_id: str, extra_props: tuple = ()) -> list[str]:
     """Source files of this project that Props/<id>.lean and Driver/<id>.lean import, transitively."""
-    todo = [f'QtVerif.Props.{prop_id}', f'Driver.{prop_id}']
+    todo = [f'QtVerif.Props.{prop_id}', f'Driver.{prop_id}'] + [f'QtVerif.Props.{x}' for x in extra_props]
     seen: dict[str, str] = {}
     while todo:
         mod = todo.pop()
@@ -93,9 +93,9 @@ def lean_closure(prop_id: str) -> list[str]:
     return sorted(seen.values())
 
 
-def forbidden_tokens(prop_id: str | None = None) -> list[str]:
+def forbidden_tokens(prop_id: str | None = None, extra_props: tuple = ()) -> list[str]:
     hits = []
-    for p in (lean_closure(prop_id) if prop_id else lean_sources()):
+    for p in (lean_closure(prop_id, extra_props) if prop_id else lean_sources()):
         text = _strip_lean_comments(open(p, encoding='utf-8').read())
         for m in FORBIDDEN.finditer(text):
             line = text.count('\n', 0, m.start()) + 1
@@ -108,7 +108,7 @@ def _run(cmd, cwd=LEAN, timeout=1800, input=None):
 
 
 def theorem_names(prop_id: str) -> list[str]:
-    """Fully qualified names of the `theorem`s stated in Props/<id>.lean."""
+    """Fully qualified names of the `theorem`s stated in Props/<id>.lean (or in module `QtVerif.Props.X` given as X)."""
     path = os.path.join(LEAN, 'QtVerif', 'Props', f'{prop_id}.lean')
     text = _strip_lean_comments(open(path, encoding='utf-8').read())
     names = []
@@ -128,12 +128,12 @@ def theorem_names(prop_id: str) -> list[str]:
     return names
 
 
-def proof_gate(prop_id: str, tier: str) -> dict:
+def proof_gate(prop_id: str, tier: str, extra_props: tuple = ()) -> dict:
     """Build the property's theorems and driver, grep for forbidden tokens, audit axioms.
     Returns a dict for the evidence file; `ok` False means an obligation is not discharged."""
     t0 = time.monotonic()
     res = {'ok': True, 'problems': [], 'theorems': [], 'axioms': {}, 'obligations': 0, 'discharged': 0}
-    targets = [f'QtVerif.Props.{prop_id}']
+    targets = [f'QtVerif.Props.{prop_id}'] + [f'QtVerif.Props.{x}' for x in extra_props]
     if os.path.exists(os.path.join(LEAN, 'Driver', f'{prop_id}.lean')):
         targets.append(f'Driver.{prop_id}')
     cmd = ['lake', 'build'] + targets
@@ -143,19 +143,21 @@ def proof_gate(prop_id: str, tier: str) -> dict:
         res['ok'] = False
         res['problems'].append('lake build failed: ' + (r.stdout + r.stderr)[-2000:])
         return res
-    hits = forbidden_tokens(prop_id)
-    res['sources'] = [os.path.relpath(p, LEAN) for p in lean_closure(prop_id)]
+    hits = forbidden_tokens(prop_id, extra_props)
+    res['sources'] = [os.path.relpath(p, LEAN) for p in lean_closure(prop_id, extra_props)]
     if hits:
         res['ok'] = False
         res['problems'].append('forbidden tokens: ' + '; '.join(hits))
     names = theorem_names(prop_id)
+    for x in extra_props:           # integration corollaries audited together with this property
+        names += theorem_names(x)
     res['theorems'] = names
     res['obligations'] = len(names)
     if not names:
         res['ok'] = False
         res['problems'].append('no theorems found')
         return res
-    audit = f'import QtVerif.Props.{prop_id}\n' + ''.join(f'#print axioms {n}\n' for n in names)
+    audit = f'import QtVerif.Props.{prop_id}\n' + ''.join(f'import QtVerif.Props.{x}\n' for x in extra_props) + ''.join(f'#print axioms {n}\n' for n in names)
     tmp = os.path.join(LEAN, '.lake', f'audit_{prop_id}_{os.getpid()}.lean')
     with open(tmp, 'w') as f:
         f.write(audit)
@@ -189,7 +191,7 @@ def proof_gate(prop_id: str, tier: str) -> dict:
     res['axioms'] = found
     res['discharged'] = discharged
     if tier == 'thorough':
-        mods = [f'QtVerif.Props.{prop_id}']
+        mods = [f'QtVerif.Props.{prop_id}'] + [f'QtVerif.Props.{x}' for x in extra_props]
         r = _run(['lake', 'env', 'leanchecker'] + mods, timeout=3600)
         res['leanchecker'] = {'modules': mods, 'returncode': r.returncode, 'tail': (r.stdout + r.stderr)[-300:]}
         if r.returncode != 0:
@@ -425,6 +427,7 @@ def write_evidence(prop: Prop, tier: str, seed: int, gate: dict, agg: dict, wall
         'checker_cmd': gate.get('checker_cmd', ''),
         'trusted_base': trusted,
         'theorems': gate.get('theorems', []),
+        'lean_sources': gate.get('sources', []),
         'axioms': gate.get('axioms', {}),
         'evaluations': agg['evaluations'],
         'distinct_nontrivial': len(agg['keys']),
@@ -509,7 +512,7 @@ def run_check(prop_cls, tier: str, seed: int, replay: str | None = None) -> int:
         print('replayed case passes')
         return EXIT_OK if not st['errors'] else EXIT_BROKEN
 
-    gate = proof_gate(prop.ID, tier)
+    gate = proof_gate(prop.ID, tier, tuple(getattr(prop, 'EXTRA_PROPS', ())))
 
     n = prop.N_QUICK if tier == 'quick' else prop.N_THOROUGH
     n = int(os.environ.get('VERIF_CASES', n))
